@@ -482,7 +482,59 @@ fn ultrametric(rng: &mut Rng, n: usize) -> Vec<f64> {
     cells
 }
 
+/// UPGMA on matrices whose element type is f32 (oracles on the real result only): the heights are kept in f64 and every height is
+/// half an f32 value, so all differences and sums along a root path are exact — the leaves are equidistant from the root to the
+/// last bit (1e-12 relative is allowed), lengths are non-negative, the arena is well formed, the leaves are the taxa
+fn f32_stream(rng: &mut Rng, count: usize, rep: &mut Report) {
+    for _ in 0..count {
+        let n = rng.range(3, 14);
+        let names: Vec<String> = (0..n).map(|i| format!("f{i}")).collect();
+        let ints: Vec<usize> = (0..tri(n)).map(|_| rng.range(1, 99)).collect();
+        let cells: Vec<f32> = ints.iter().map(|k| *k as f32 / 10.0).collect();
+        let case = format!("up.run.f32\t{}\t{}\t(cells = these integers / 10 as f32)", names.join(","), ints.iter().map(|k| k.to_string()).collect::<Vec<_>>().join(" "));
+        rep.case(&case, true);
+        rep.count("matrices:f32-element-type");
+        let m = DistanceMatrix::<f32>::new(names.clone(), &cells);
+        match guarded(AssertUnwindSafe(|| m.upgma())) {
+            Err(_) => rep.oracle("no-panic", "upgma-f32", &case, "panic"),
+            Ok(Err(e)) => rep.oracle("shape", "refused", &case, &format!("{e:?}")),
+            Ok(Ok(tree)) => {
+                let slots = slots_of(&tree);
+                if let Err(e) = check_inv(&slots, true) {
+                    rep.oracle("well-formed", &inv_sig(&e), &case, &e);
+                    continue;
+                }
+                let Some(rose) = live_roots(&slots).first().and_then(|x| rose_of(&slots, *x)) else { continue };
+                let t = from_rose(&rose);
+                let mut leaves = vec![];
+                leaf_depths(&t, 0.0, &mut leaves);
+                let h = leaves.iter().map(|x| x.1).fold(0.0, f64::max);
+                let lo = leaves.iter().map(|x| x.1).fold(f64::INFINITY, f64::min);
+                let mut got: Vec<String> = leaves.iter().map(|x| x.0.clone()).collect();
+                got.sort();
+                let mut want = names.clone();
+                want.sort();
+                if got != want {
+                    rep.oracle("shape", "leaves-are-not-the-taxa", &case, &format!("{got:?}"));
+                }
+                if !(h - lo <= 1e-12 * h.max(1.0)) {
+                    rep.oracle("ultrametric", "leaves-not-equidistant-from-root:f32-matrix", &case, &format!("depths from {lo} to {h}: {leaves:?}"));
+                }
+                let mut neg = false;
+                rose.for_each(&mut |x, root| if !root && x.len.map_or(true, |l| l < 0.0) { neg = true; });
+                if neg {
+                    rep.oracle("shape", "negative-or-missing-branch-length:f32-matrix", &case, &rose.newick());
+                }
+            }
+        }
+    }
+}
+
 pub fn run(thorough: bool, seed: u64, driver: &str, rep: &mut Report) {
+    {
+        let mut r0 = Rng::new(seed ^ 0xf32);
+        f32_stream(&mut r0, if thorough { 4000 } else { 400 }, rep);
+    }
     enum Job {
         Exhaustive { n: usize, maxv: usize },
         Random { seed: u64, count: usize },
